@@ -481,6 +481,11 @@ def replay_findings(prop, replay_fn):
         if f.get("witness") is None:
             continue
         for v in replay_fn(f["witness"]):
+            other = match_finding(v, opened)
+            if other is not None:
+                # the witness of a repaired defect also runs into a DIFFERENT defect that is recorded as open: that one is reported under its own id
+                known[other["id"]] = True
+                continue
             v = dict(v)
             v["sig"] = "regression-of-fixed:" + f["id"] + ":" + v["sig"]
             fixed_failures.append(v)
